@@ -313,13 +313,14 @@ def assign(hb, complete, chain, ca, na_breaks=True, extra_breaks=(), both_type="
         else:
             br["loop:no-kappa(chain-end-or-break)"] += 1
     if overlap_residues:
-        # the ladders such a pair is linked to belong to the same witness region
-        for members in comps.values():
-            h = set()
-            for m in members:
-                h |= hull(m)
+        # witness region: the (linked) ladders that contain such a pair, gap residues included, widened by 4 residues
+        # (G/I minimal helices are all-or-nothing, so a strand residue that loses or gains E/B changes helix codes up
+        # to 4 residues away)
+        for L in linked:
+            h = set(range(L["s1"][0], L["s1"][1] + 1)) | set(range(L["s2"][0], L["s2"][1] + 1))
             if h & overlap_residues:
                 overlap_residues |= h
+        overlap_residues = set(q for r in overlap_residues for q in range(r - 4, r + 5))
     return Result(code, br, bend_margin, dict(par=par, anti=anti, ladders=ladders, linked=linked, links=links,
                                                 turn=turn, seg=seg, overlap_residues=overlap_residues,
                                                 ambiguous_residues=ambiguous_residues))
